@@ -124,7 +124,15 @@ def expected_content(fs):
             if o['type'] is None:
                 o['type'] = t
             for k in range(seg.get('nchunks', 0)):
-                o['chunks'].append((si, k, seg['data'][p][k]))
+                chunk = seg['data'][p][k]
+                if seg.get('trim_raw') and k == seg['nchunks'] - 1:
+                    # the segment's last chunk lost its tail (the lead-in states the shortened size)
+                    if not seg.get('interleaved'):
+                        raise ValueError('no content model for a shortened contiguous chunk')
+                    stride = sum(tsize(tt) for (_pp, tt, _nn) in seg['active'])
+                    rows = max(n * stride - seg['trim_raw'], 0) // stride      # interleaved: complete rows only
+                    chunk = chunk[:rows * tsize(t)]
+                o['chunks'].append((si, k, chunk))
         if seg.get('meta', True):
             for ent in seg.get('entries') or []:
                 o = ex.obj(ent['path'])
